@@ -98,6 +98,9 @@ DEFS = [
     ('def meta(n):\n    """doc of meta"""\n    return n\n', '(meta.__name__, meta.__doc__, str(inspect.signature(meta)), inspect.isgeneratorfunction(gen) if "gen" in globals() else None)'),
     ('try:\n    import helper as guarded\nexcept ImportError:\n    guarded = None\n', 'guarded.hg(2) if guarded else None'),
     ('if True:\n    from other import of as cond_of\n', 'cond_of(3)'),
+    # imports in branches that do not run (typing-only imports, switched-off optional dependencies): the names stay unbound
+    ('TYPE_CHECKING = False\nif TYPE_CHECKING:\n    from helper import HK as TypeOnly\n    import other as typed_other\n', '"TypeOnly" in globals() or "typed_other" in globals()'),
+    ('if _os0.environ.get("LPV_NO_SUCH_SWITCH"):\n    import pkgk.sib as fast_impl\nelse:\n    fast_impl = None\n', 'fast_impl is None'),
 ]
 PRELUDE = 'import asyncio\nimport functools\nimport inspect\ntry:\n    profile\nexcept NameError:\n    def profile(f):\n        return f\n'
 
